@@ -116,3 +116,70 @@ def py_diff(a, b):
     if a['patch'] != b['patch']:
         return pre + 'patch'
     return 'prerelease'
+
+
+# ---------------------------------------------------------------- O-within / O-sat (formula over value trees, O-order based)
+def o_within(h, bs, v):
+    lo, hi = h.lower_pred(bs), h.upper_pred(bs)
+
+    def lt(x, y):
+        return o_lt_eq(x, y)[0]
+
+    def le(x, y):
+        l, e = o_lt_eq(x, y)
+        return OR(l, e)
+    lo_ok = z3.If(lo.tag == 2, z3.BoolVal(True), z3.If(lo.tag == 1, le(payload(lo, 1)[0], v), lt(payload(lo, 0)[0], v)))
+    hi_ok = z3.If(hi.tag == 2, z3.BoolVal(True), z3.If(hi.tag == 1, le(v, payload(hi, 1)[0]), lt(v, payload(hi, 0)[0])))
+    return AND(lo_ok, hi_ok)
+
+
+def o_sat(h, bs, v):
+    return AND(o_within(h, bs, v), OR(NOT(h.is_pre(v)), h.gate(bs, v)))
+
+
+def py_within(bs, v):
+    lo, hi = bs['lo'], bs['hi']
+    ok = True
+    if lo['k'] != 'U':
+        c = py_cmp(lo['v'], v)
+        ok = ok and (c <= 0 if lo['k'] == 'I' else c < 0)
+    if hi['k'] != 'U':
+        c = py_cmp(v, hi['v'])
+        ok = ok and (c <= 0 if hi['k'] == 'I' else c < 0)
+    return ok
+
+
+def py_sat_bs(bs, v):
+    if not py_within(bs, v):
+        return False
+    if not v['pre']:
+        return True
+    for p in (bs['lo'], bs['hi']):
+        if p['k'] != 'U' and p['v']['pre'] and (p['v']['major'], p['v']['minor'], p['v']['patch']) == (v['major'], v['minor'], v['patch']):
+            return True
+    return False
+
+
+def py_sat(rng, v):
+    return any(py_sat_bs(b, v) for b in rng)
+
+
+def py_adm(rng, v):
+    return any(py_within(b, v) for b in rng)
+
+
+def raw_version(v, names):
+    from . import replay as rp
+    return {'major': v['major'], 'minor': v['minor'], 'patch': v['patch'], 'pre': [rp.ident_raw(i, names) for i in v['pre']],
+            'build': [rp.ident_raw(i, names) for i in v.get('build', [])]}
+
+
+def raw_range(r, names):
+    out = []
+    for b in r:
+        nb = {}
+        for side in ('lo', 'hi'):
+            p = b[side]
+            nb[side] = {'k': p['k']} if p['k'] == 'U' else {'k': p['k'], 'v': raw_version(p['v'], names)}
+        out.append(nb)
+    return out
